@@ -83,6 +83,7 @@ def scenarios(rnd, tier):
             for qos in (0, 1):
                 fr = c12.data_frame(rnd, qos, c12.eapol_body(rnd, rnd.choice([0x008a, 0x010a, 0x13ca, 0x030a]), d, a))
                 out.append(frames.mp_line(fr, rnd.randrange(3), rnd).replace("mp ", "eap ", 1))
+    out += c12.field_lines(rnd)          # e.g. a zero key length next to key data: the release must not key on the wrong field
     return [l for l in out if len(l) < 6000]
 
 
